@@ -565,6 +565,11 @@ func stripOAIGen(opts *FlattenOpts) (bool, error) {
 			continue
 		}
 
+		if refersToItself(r) {
+			// a recursive definition cannot be merged back into its referrers: keep it under its OAIGen name
+			continue
+		}
+
 		hasReplacedWithComplex, err := stripOAIGenForRef(opts, k, r)
 		if err != nil {
 			return replacedWithComplex, err
@@ -577,6 +582,17 @@ func stripOAIGen(opts *FlattenOpts) (bool, error) {
 	opts.Spec.reload() // re-analyze
 
 	return replacedWithComplex, nil
+}
+
+// refersToItself tells whether one of the referrers of a definition lies within that very definition
+func refersToItself(r *newRef) bool {
+	for _, parent := range r.parents {
+		if strings.HasPrefix(parent, r.path+"/") {
+			return true
+		}
+	}
+
+	return false
 }
 
 // updateRefParents updates all parents of an updated $ref
